@@ -3,7 +3,7 @@
    src/context.rs, src/gdef.rs, src/layout.rs lookup parts, src/gsub.rs); declarative side: Model/LayoutSpec.v,
    Model/GsubSpec.v; constants regenerated from the source into Gen/LayoutConsts.v. *)
 From AV Require Import Base.Prelude Gen.LayoutConsts Model.Reader Model.Layout Model.LayoutSpec Model.Gsub Model.GsubSpec
-  Model.FeatureVariations Model.FeatureVariationsSpec
+  Model.FeatureVariations Model.FeatureVariationsSpec Model.FontShape Proofs.FontShapeProofs
   Proofs.LayoutProofs Proofs.GsubProofs Proofs.LigatureProofs Proofs.ContextProofs Proofs.FeatureVariationsProofs.
 From Coq Require Import Permutation.
 Open Scope Z_scope.
@@ -700,4 +700,68 @@ Example C04_fv_mask_example :
   run (Some [0]) = Ok [6] /\      (* rvrn: 7 -> 5, then liga -> lookup 0: 5 -> 6 *)
   run (Some [12288]) = Ok [6] /\  (* record 0: NULL substitution *)
   run (Some [9830]) = Ok [15].    (* record 1: liga -> lookup 1: 5 -> 15 *)
+Proof. vm_compute. repeat split; reflexivity. Qed.
+
+(* ---------------------------------------------------------------- (g) the entry point Font::shape *)
+(* `apply` is gsub::apply with script, language, features and tuple fixed (any of gsub_apply_custom,
+   gsub_apply_default, gsub_apply_custom_v, gsub_apply_default_v); a font is its GSUB / GPOS / GDEF / morx / kern
+   tables, each absent, unreadable or present, and the glyph count. *)
+(* the glyphs Font::shape substitutes are those of gsub::apply on the font's GSUB with the font's GDEF
+   (none if the font has no readable GDEF) and the font's glyph count *)
+Theorem C04_shape_is_gsub_apply_with_font_gdef :
+  forall (apply : layout_table -> option gdef -> Z -> list glyph -> outcome (list glyph)) f t gs,
+  ft_gsub f = TPresent t ->
+  shaped_glyphs (font_shape_subst apply f gs) = apply_glyphs (apply t (loaded (ft_gdef f)) (ft_num_glyphs f) gs).
+Proof. exact shape_is_apply_with_font_gdef. Qed.
+Print Assumptions C04_shape_is_gsub_apply_with_font_gdef.
+
+Theorem C04_shape_uses_the_fonts_gdef :
+  forall (apply : layout_table -> option gdef -> Z -> list glyph -> outcome (list glyph)) f t gd gs,
+  ft_gsub f = TPresent t -> ft_gdef f = TPresent gd ->
+  shaped_glyphs (font_shape_subst apply f gs) = apply_glyphs (apply t (Some gd) (ft_num_glyphs f) gs).
+Proof. exact shape_uses_present_gdef. Qed.
+Print Assumptions C04_shape_uses_the_fonts_gdef.
+
+(* GPOS, kern and morx -- present, absent or unreadable -- have no influence on the substituted glyphs, nor on
+   whether substitution succeeds (the seeded regression: GDEF loaded only for fonts with a GPOS table) *)
+Theorem C04_shape_glyphs_independent_of_positioning_tables :
+  forall (apply : layout_table -> option gdef -> Z -> list glyph -> outcome (list glyph)) f1 f2 gs,
+  ft_gsub f1 = ft_gsub f2 -> ft_gdef f1 = ft_gdef f2 -> ft_num_glyphs f1 = ft_num_glyphs f2 ->
+  shaped_glyphs (font_shape_subst apply f1 gs) = shaped_glyphs (font_shape_subst apply f2 gs) /\
+  ((exists r, font_shape_subst apply f1 gs = Ok r) <-> (exists r, font_shape_subst apply f2 gs = Ok r)).
+Proof.
+  intros apply f1 f2 gs Hs Hd Hn.
+  exact (conj (shape_glyphs_independent_of_positioning_tables apply f1 f2 gs Hs Hd Hn)
+              (shape_success_independent_of_positioning_tables apply f1 f2 gs Hs Hd Hn)).
+Qed.
+Print Assumptions C04_shape_glyphs_independent_of_positioning_tables.
+
+Theorem C04_shape_without_gsub_keeps_the_glyphs :
+  forall (apply : layout_table -> option gdef -> Z -> list glyph -> outcome (list glyph)) f gs,
+  loaded (ft_gsub f) = None -> font_shape_subst apply f gs = Ok (table_errors f, gs).
+Proof. exact shape_without_gsub. Qed.
+Print Assumptions C04_shape_without_gsub_keeps_the_glyphs.
+
+Theorem C04_shape_reports_first_table_error :
+  forall (apply : layout_table -> option gdef -> Z -> list glyph -> outcome (list glyph)) f gs e r,
+  table_errors f = Some e -> font_shape_subst apply f gs = r ->
+  match r with Ok (e', _) => e' = Some e | Err e' => e' = e | _ => True end.
+Proof. exact shape_reports_first_table_error. Qed.
+Print Assumptions C04_shape_reports_first_table_error.
+
+(* non-vacuity, on the real lookup code: ligature 1+2 -> 9 under IgnoreMarks, mark 3 between the components.
+   Font without GPOS but with GDEF: 9 3; the same font without GDEF (what the seeded regression computes): unchanged. *)
+Example C04_shape_ignore_marks_without_gpos :
+  let liga := 1818847073 in let latn := 1818326126 in
+  let t := mkLayout (Some [(latn, mkScript (Some (mkLangSys [0])) [])]) (Some [(liga, [0])])
+             (Some [mkLookup 8 None (LLigature [mkLigS (CovF1 [1]) [[mkLig 9 [2]]]])]) in
+  let gd := mkGdef (Some (CdF1 1 [1; 1; 3])) None None in
+  let apply := fun t gd n gs => gsub_apply_custom Debug t gd latn None [(liga, None)] n gs in
+  let g k c := mkGlyph k [c] 0 (Some c) false false false 0 in
+  let gs := [g 1 97; g 3 98; g 2 99] in
+  let ids r := match shaped_glyphs r with Some l => Some (List.map g_id l) | None => None end in
+  ids (font_shape_subst apply (mkFont (TPresent t) TAbsent (TPresent gd) TAbsent TAbsent 14) gs) = Some [9; 3] /\
+  ids (font_shape_subst apply (mkFont (TPresent t) (TPresent tt) (TPresent gd) TAbsent TAbsent 14) gs) = Some [9; 3] /\
+  ids (font_shape_subst apply (mkFont (TPresent t) (TUnreadable Eof) (TPresent gd) TAbsent (TPresent tt) 14) gs) = Some [9; 3] /\
+  ids (font_shape_subst apply (mkFont (TPresent t) TAbsent TAbsent TAbsent TAbsent 14) gs) = Some [1; 3; 2].
 Proof. vm_compute. repeat split; reflexivity. Qed.
